@@ -20,6 +20,7 @@ LEVEL_TEXT = ("seeded search over operation histories (create / add block / writ
 LEVEL_NOTE = ("device check is lenient about container framing (C08's subject): it needs the session key at the documented "
               "offset after an independent AES-CBC / ECIES unwrap; ephemeral scalars are observed, never predicted")
 RUNS = {"quick": 2400, "thorough": 100000}
+OPTIMIZED_PASS = {"quick": 150, "thorough": 2000}   # extra runs under PYTHONOPTIMIZE=1 (assert statements removed)
 RULE = ("per run a history of 3-9 operations over up to 3 BEC2 files sharing a pool of secrets; after every write the device "
         "model unwraps each block; reads use seeded decryptor subsets; splices replace one block value by the same-kind "
         "block of another file; evaluations = operations executed; non-trivial = at least one write was unwrapped by the "
@@ -27,7 +28,7 @@ RULE = ("per run a history of 3-9 operations over up to 3 BEC2 files sharing a p
 REAL = ["bec2format.bec2file", "bec2format.bf3file", "bec2format.crypto", "register_crypto_plugin", "pyaes", "ecdsa"]
 STUBS = ["medium: SimFS", "RNG: SimRng (never repeats, logs call-site class)", "key-generation observer",
          "device model: RefAES/RefCRC/RefP256"]
-PROBES = ["same-object-two-writer-threads", "fork-child-and-parent-draw-keys", "bf3-object-shared-between-files", "splice-insert-same-tag", "keyless-constructor", "repeated-write-same-object", "rewrite-with-opaque-block", "splice-different-keys",
+PROBES = ["runs-with-assertions-disabled", "writer-keystore", "same-object-two-writer-threads", "fork-child-and-parent-draw-keys", "bf3-object-shared-between-files", "splice-insert-same-tag", "keyless-constructor", "repeated-write-same-object", "rewrite-with-opaque-block", "splice-different-keys",
           "splice-equal-keys", "splice-rejected", "ecc-default-recipient-unwrapped", "three-blocks-unwrapped",
           "two-files-distinct-keys", "ephemeral-points-compared"]
 ASSUMPTIONS = ["'rejected' for a spliced header means: read with decryptors for both blocks raises"]
@@ -109,7 +110,8 @@ def gen(st, tier):
                 if cand and any(b != 2 for b in files_[fb]):
                     ops.append(["splice_insert", "f%d.bec2" % fa, "f%d.bec2" % fb, w.choice(cand),
                                 w.choice(["front", "end"])])
-    return {"pool": pool, "objs": objs, "ops": ops, "rng": w.getrandbits(32), "share": w.random() < 0.5}
+    return {"pool": pool, "objs": objs, "ops": ops, "rng": w.getrandbits(32), "share": w.random() < 0.5,
+            "keystore": w.random() < 0.4}
 
 
 def _body_ok(binary, body_off, key, model):
@@ -328,6 +330,12 @@ def run(case):
                     obj, sub, blocks = lastread[src]
                     opened = set(sub)
                 wenc = [wenc_by[b] for b in blocks if b in opened and b in wenc_by]
+                if case.get("keystore"):
+                    eccs = [pool[b]["sel"] for b in blocks if pool[b]["t"] == "ecc" and b in opened]
+                    if eccs:
+                        # the host lists its whole key store: encryptors for the other selectors come first
+                        wenc = [e for e, _ in prov.decoys_for(env, eccs[0])] + wenc
+                        out.probes["writer-keystore"] += 1
                 g0 = len(obs.generated)
                 d0 = len(rng.draws)
                 try:
